@@ -1,5 +1,5 @@
 (* C03 — numeric comparisons agree with the mathematical order. *)
-From Rules Require Import Spec Eval Refinement OpsProps ValuesProps FloatProofs LeafTheorems.
+From Rules Require Import Spec Eval Refinement OpsProps ValuesProps FloatProofs LeafTheorems RoundProofs DecimalProofs DecimalLeaf.
 From Coq Require Import QArith.
 
 (* integer attribute (int, int32, int64) against an integer literal: the order of Z *)
@@ -45,6 +45,59 @@ Theorem C03_int_dec_exact :
     = mkOut (rel_holds op (Some (Qcompare (inject_Z z) (Qval m' e')))) ErrNone None.
 Proof. exact c03_int_dec_exact. Qed.
 Print Assumptions C03_int_dec_exact.
+
+(* the decimal literal as a mathematical value: a text sign digits[.digits][e exponent] denotes
+   Qdec neg D e10 = (-1)^neg * D * 10^e10 (dec_parts reads it off the text); when that number is
+   a float64 (dec_is_float64: zero, or M * 2^E with M < 2^53, E >= -1074) the comparison is with
+   the number itself *)
+Theorem C03_float_dec_value :
+  forall lower top p op t m e neg D e10 m' e',
+    p <> [] -> denote top p = Ok (GF64 (FFin m e)) ->
+    dec_parts t = Some (neg, D, e10) -> dec_is_float64 D e10 -> parse_float t = PFVal (FFin m' e') -> is_rel op ->
+    process_tree lower (QCompare p op (VDouble t)) top
+    = mkOut (rel_holds op (Some (Qcompare (Qval m e) (Qdec neg D e10)))) ErrNone None.
+Proof. exact c03_float_dec_value. Qed.
+Print Assumptions C03_float_dec_value.
+
+Theorem C03_int_dec_value :
+  forall lower top p op t z neg D e10 m' e',
+    p <> [] -> denote top p = Ok (GInt z) -> (Z.abs z <= two53)%Z ->
+    dec_parts t = Some (neg, D, e10) -> dec_is_float64 D e10 -> parse_float t = PFVal (FFin m' e') -> is_rel op ->
+    process_tree lower (QCompare p op (VDouble t)) top
+    = mkOut (rel_holds op (Some (Qcompare (inject_Z z) (Qdec neg D e10)))) ErrNone None.
+Proof. exact c03_int_dec_value. Qed.
+Print Assumptions C03_int_dec_value.
+
+(* every other accepted decimal literal is converted to the NEAREST float64, ties to even
+   (zero below 10^-330): m0 * 2^e is within half a unit 2^e of D * 10^e10, the significand is
+   normalised or the exponent is the minimum *)
+Theorem C03_decimal_nearest :
+  forall t neg D e10 m e, dec_parts t = Some (neg, D, e10) -> (0 < D)%Z -> parse_float t = PFVal (FFin m e) ->
+  ((e10 + (Z.log2 D / 3 + 1) <= -330)%Z /\ m = 0%Z /\ e = 0%Z) \/
+  (let num := fst (dec_fraction D e10) in let den := snd (dec_fraction D e10) in
+   exists m0, m = (if neg then - m0 else m0)%Z /\
+   let n := Nk num (- e) in let d := Dk den (- e) in
+   (Z.abs (2 * (m0 * d - n)) <= d)%Z /\ (Z.abs (2 * (m0 * d - n)) = d -> Z.even m0 = true) /\
+   ((two52 <= m0 <= two53)%Z \/ (e = (-1074)%Z /\ (0 <= m0 <= two53)%Z)) /\ (-1074 <= e <= 971)%Z /\ (e = 971%Z -> (m0 < two53)%Z)).
+Proof. exact parse_float_nearest. Qed.
+Print Assumptions C03_decimal_nearest.
+
+(* the same for float64(int) and any other quotient: round_pos_rational is nearest-even *)
+Theorem C03_round_nearest_even :
+  forall num den m e, (0 < num)%Z -> (0 < den)%Z -> round_pos_rational num den = Some (m, e) ->
+  let n := Nk num (- e) in let d := Dk den (- e) in
+  (Z.abs (2 * (m * d - n)) <= d)%Z /\ (Z.abs (2 * (m * d - n)) = d -> Z.even m = true) /\
+  ((two52 <= m <= two53)%Z \/ (e = (-1074)%Z /\ (0 <= m <= two53)%Z)) /\ (-1074 <= e <= 971)%Z /\ (e = 971%Z -> (m < two53)%Z).
+Proof. exact round_nearest_even. Qed.
+Print Assumptions C03_round_nearest_even.
+
+(* the premises hold for 1.5, -2.25, 1.0e3, 0.0 *)
+Example C03_decimal_examples :
+  (dec_parts [49;46;53]%N = Some (false, 15, -1)%Z /\ dec_is_float64 15 (-1)) /\
+  (dec_parts [45;50;46;50;53]%N = Some (true, 225, -2)%Z /\ dec_is_float64 225 (-2)) /\
+  (dec_parts [49;46;48;101;51]%N = Some (false, 10, 2)%Z /\ dec_is_float64 10 2) /\
+  (dec_parts [48;46;48]%N = Some (false, 0, -1)%Z /\ dec_is_float64 0 (-1)).
+Proof. exact dec_examples. Qed.
 
 Theorem C03_nan :
   forall lower top p op v (t : f64) r,
